@@ -55,6 +55,18 @@ class FuncView:
                         out.append((n, x))
         return out
 
+    def attr_calls(self, names):
+        """[(cfgnode, Call)] for method calls whose method name is in names, whatever the receiver
+        expression is (subscripts, call results ...)"""
+        if isinstance(names, str):
+            names = (names,)
+        out = []
+        for n in self.cfg.nodes:
+            for x in self.cfg.walk_node(n):
+                if isinstance(x, ast.Call) and isinstance(x.func, ast.Attribute) and x.func.attr in names:
+                    out.append((n, x))
+        return out
+
     def call_nodes(self, pat, where=None):
         seen, out = set(), []
         for n, _ in self.calls(pat, where):
